@@ -50,27 +50,27 @@ type Clause struct {
 }
 
 type Contract struct {
-	Kind       string // func, extern
-	Name       string // canonical function name
-	Params     []string
-	Results    []string
-	Requires   []Clause
-	Ensures    []Clause
-	Assigns    []*Expr
-	AssignsAll bool
-	HasAssigns bool
-	Loops      map[int][]Clause
-	PanicsWhen []Clause
-	Props      []string
-	Inline     bool
-	Pure       bool
-	File       string
-	Line       int
-	Trusted    bool // extern: assumed, not verified
-	NoSafety   bool
-	Opaque     bool // call sites always use the contract
-	Calls      []CallClause
-	FrameProps []string
+	Kind          string // func, extern
+	Name          string // canonical function name
+	Params        []string
+	Results       []string
+	Requires      []Clause
+	Ensures       []Clause
+	Assigns       []*Expr
+	AssignsAll    bool
+	HasAssigns    bool
+	Loops         map[int][]Clause
+	PanicsWhen    []Clause
+	Props         []string
+	Inline        bool
+	Pure          bool
+	File          string
+	Line          int
+	Trusted       bool // extern: assumed, not verified
+	NoSafety      bool
+	Opaque        bool // call sites always use the contract
+	Calls         []CallClause
+	FrameProps    []string
 	PureCallbacks bool
 }
 
@@ -93,20 +93,20 @@ type UFun struct {
 }
 
 type SpecDB struct {
-	Contracts map[string]*Contract
-	Externs   map[string]*Contract
-	Funs      map[string]*SpecFun
-	UFuns     map[string]*UFun
-	Consts    map[string]string
-	Axioms    []Clause
-	Methods   map[string]bool // pure interface methods
-	Globals   map[string]string
-	FuncTypes map[string]bool
-	MethodDefs map[string]*SpecFun
+	Contracts    map[string]*Contract
+	Externs      map[string]*Contract
+	Funs         map[string]*SpecFun
+	UFuns        map[string]*UFun
+	Consts       map[string]string
+	Axioms       []Clause
+	Methods      map[string]bool // pure interface methods
+	Globals      map[string]string
+	FuncTypes    map[string]bool
+	MethodDefs   map[string]*SpecFun
 	FuncTypeLaws map[string]*Expr
-	MethodLaws map[string]*Expr
-	Files     []string
-	Markers   []string // trusted/assume markers found
+	MethodLaws   map[string]*Expr
+	Files        []string
+	Markers      []string // trusted/assume markers found
 }
 
 func NewSpecDB() *SpecDB {
